@@ -43,13 +43,32 @@ def rand_history(seed: int) -> list:
     rng = random.Random(seed)
     text = " ".join(rng.choice(WORDS) for _ in range(rng.randint(1, 4)))
     par = Paragraph(text) if rng.random() < 0.7 else Header(1, text)
+    holder = None
+    if rng.random() < 0.5:
+        # the paragraph belongs to a document (some operations look things up from the document body)
+        from odfdo import Document
+
+        holder = Document("text")
+        holder.body.append(par)
     events = []
     nsteps = rng.randint(1, 5)
+    KINDS = ["wrap_offset", "wrap_offset", "wrap_pattern", "mark_occurrence", "mark_position", "mark_range", "mark_content", "strip_tags", "delete"]
+    MARKS = {"mark_occurrence", "mark_position", "mark_range", "mark_content", "delete"}
+    kinds = [rng.choice(KINDS) for _ in range(nsteps)]
+    if rng.random() < 0.3:
+        kinds = [rng.choice(sorted(MARKS)) for _ in range(nsteps)]       # mark-only histories: annotations may come early
+    pairmode = rng.random() < 0.15
+    if pairmode:
+        # a range of marks laid over markup that is already there, then the start mark deleted on its own (documented: its end goes too)
+        kinds = [rng.choice(["wrap_offset", "wrap_pattern"]), "mark_range", "delete"]
+        nsteps = 3
     for step in range(nsteps):
         tokens = ml.project(par)
         slots = [t["s"] for t in tokens if t["k"] == "t"]
         total = sum(len(s) for s in slots)
-        kind = rng.choice(["wrap_offset", "wrap_offset", "wrap_pattern", "mark_occurrence", "mark_position", "mark_range", "mark_content", "strip_tags", "delete"])
+        kind = kinds[step]
+        # an annotation may be inserted when only mark operations follow (their offsets skip the text of annotations)
+        note_ok = all(k in MARKS for k in kinds[step + 1:])
         if kind == "wrap_offset":
             o = {"op": kind, "tag": rng.choice(["span", "a"]), "off": rng.randint(0, total + 1), "len": rng.randint(0, 4)}
         elif kind in ("wrap_pattern", "mark_occurrence", "mark_content"):
@@ -62,14 +81,14 @@ def rand_history(seed: int) -> list:
             if kind == "wrap_pattern":
                 o = {"op": kind, "tag": rng.choice(["span", "a"]), "p": p}
             elif kind == "mark_content":
-                o = {"op": kind, "p": p, "nth": rng.randint(0, 1), "alone": step == nsteps - 1}
+                o = {"op": kind, "p": p, "nth": rng.randint(0, 1), "alone": note_ok}
             else:
-                o = {"op": kind, "p": p, "nth": rng.randint(0, 2), "before": rng.random() < 0.5, "alone": step == nsteps - 1}
+                o = {"op": kind, "p": p, "nth": rng.randint(0, 2), "before": rng.random() < 0.5, "alone": note_ok, "last": step == nsteps - 1}
         elif kind == "mark_position":
-            o = {"op": kind, "pos": rng.randint(0, total + 1), "alone": step == nsteps - 1}
+            o = {"op": kind, "pos": rng.randint(0, total + 1), "alone": note_ok}
         elif kind == "mark_range":
             a = rng.randint(0, total + 1)
-            o = {"op": kind, "a": a, "b": rng.randint(a, total + 2), "alone": step == nsteps - 1}
+            o = {"op": kind, "a": a, "b": rng.randint(a, total + 2), "alone": note_ok}
         elif kind == "strip_tags":
             o = {"op": kind, "tag": rng.choice(["span", "a"])}
         else:
@@ -77,8 +96,14 @@ def rand_history(seed: int) -> list:
             if not idx:
                 continue
             i = rng.choice(idx)
+            if pairmode:
+                starts = [ml.token_index(par, tokens, tag, attr, name) for tag, attr, name in
+                          (("text:reference-mark-start", "text:name", "rm3_0"), ("text:bookmark-start", "text:name", "bm3_0"))]
+                starts = [x for x in starts if x]
+                if starts:
+                    i = starts[0]
             o = {"op": "delete", "i": i, "kind": tokens[i - 1].get("tag")}
-        ev, par = event(par, o, tokens, rng.randint(0, 5))
+        ev, par = event(par, o, tokens, rng.choice((0, 4)) if pairmode and kind == "delete" else (rng.choice((1, 3, 5)) if pairmode and kind == "mark_range" and rng.random() < 0.7 else rng.randint(0, 5)))
         events.append(ev)
         if "exc" in ev and ev["exc"].startswith("crash"):
             break
